@@ -64,8 +64,7 @@ ARRAYISH = alias.ARRAY_ROLE
 def closure_rule(ctx, an=None, rule="R20c", prefix=None, floor=2):
     """Closures handed out as callables (drift functions, curve functions): their arguments are arrays of whoever calls them."""
     if an is None:
-        an = alias.Analyzer(ctx.prog)
-        an.run()
+        an = alias.analyzed(ctx.prog)
     n_clos = 0
     for fq in sorted(an.escaping_closures):
         if prefix is not None and not fq.startswith(prefix):
@@ -83,8 +82,7 @@ def closure_rule(ctx, an=None, rule="R20c", prefix=None, floor=2):
 
 def run(ctx):
     prog = ctx.prog
-    an = alias.Analyzer(prog)
-    an.run()
+    an = alias.analyzed(prog)
     entries = public_entries(prog, an)
     ctx.floor("R20", "public entry points analysed", len(entries), 250)
     ctx.floor("R20", "function definitions summarised", len(an.funcs), 500)
